@@ -405,8 +405,8 @@ class _LiveConnection:
         self.closed = True
 
 
-def removed_case(passive, up):
-    inp = {'removed_neighbor_passive': passive, 'session_up_during_reload': up}
+def removed_case(passive, up, readd=False):
+    inp = {'removed_neighbor_passive': passive, 'session_up_during_reload': up, 'put_back_by_the_next_reload': readd}
     try:
         from exabgp.rib import RIB
 
@@ -433,6 +433,14 @@ def removed_case(passive, up):
             return {'what': f'new configuration refused: {w.reactor.configuration.error}', 'input': inp}
         if _serves_connections(p2):
             return {'what': 'a neighbor removed by the reload would still be served (and announce the old configuration) when the remote connects', 'input': inp}
+        if readd:
+            # put back by the next reload, before the task of the removed peer has ended (it is still registered)
+            w.reactor.configuration._configurations = [config_text(old1) + n2]
+            if w.reactor.reload() is not True:
+                return {'what': f'configuration with the neighbor put back refused: {w.reactor.configuration.error}', 'input': inp}
+            back = [k for k in w.peers() if '127.0.0.2 ' in k]
+            if not back or not _serves_connections(w.peers()[back[0]]):
+                return {'what': 'a neighbor removed by one reload and put back by the next is not served any more: its peer is still the stopped one (no session, no route until yet another reload)', 'input': inp}
     except Exception as e:  # noqa
         import traceback
 
@@ -445,11 +453,18 @@ def removed_neighbors(tier, seed):
     fails, evals = [], 0
     for passive in (False, True):
         for up in (True, False):
-            evals += 1
-            f = removed_case(passive, up)
-            if f:
-                fails.append(f)
-    return {'evaluations': evals, 'distinct_nontrivial': evals, 'exhaustive': True, 'bound': 'a second neighbor deleted by the new configuration: passive / active x session up / down', 'rule': 'one case = (passive, session state); all four distinct', 'samples': [{'removed_neighbor_passive': True, 'session_up_during_reload': False}], 'failures': fails}
+            for readd in (False, True):
+                evals += 1
+                f = removed_case(passive, up, readd)
+                if f:
+                    fails.append(f)
+    return {'evaluations': evals, 'distinct_nontrivial': evals, 'exhaustive': True, 'bound': 'a second neighbor deleted by the new configuration: passive / active x session up / down x put back by the next reload (before the task of the removed peer has ended) or not', 'rule': 'one case = (passive, session state); all four distinct', 'samples': [{'removed_neighbor_passive': True, 'session_up_during_reload': False}], 'failures': fails}
+
+
+@replayer('C17', 'removed-neighbors')
+def _replay_removed(f):
+    i = f['input']
+    return removed_case(i['removed_neighbor_passive'], i['session_up_during_reload'], i.get('put_back_by_the_next_reload', False)) is None
 
 
 # ---------------------------------------------------------------------------------------------------------------------
